@@ -810,4 +810,486 @@ theorem tick_canSuspend (cfg : Cfg) (w : Store) (c : Ctr) (cons : Int) (w' : Sto
     rw [← hc']
     exact this
 
+
+/-- at a tick boundary: a container flagged suspendable sits at an operator boundary -/
+def FlagOK (l : List Ctr) : Prop := ∀ c ∈ l, c.completed = false → c.frozen = false → c.canSuspend = true → headRunning c = false
+
+theorem tickAll_flag (cfg : Cfg) : ∀ (l : List Ctr) (w : Store) (cons : Int) (w' : Store) (l' : List Ctr) (cons' : Int),
+    tickAll cfg w l cons = .ok (w', l', cons') → (∀ c ∈ l, CtrInv cfg c ∧ (c.completed = false → c.frozen = false)) → FlagOK l' := by
+  intro l
+  induction l with
+  | nil =>
+    intro w cons w' l' cons' h _
+    simp only [tickAll, Except.ok.injEq, Prod.mk.injEq] at h
+    obtain ⟨_, rfl, _⟩ := h
+    intro c hc; simp at hc
+  | cons c cs ih =>
+    intro w cons w' l' cons' h hinv
+    unfold tickAll at h
+    split at h
+    · cases h
+    · rename_i w1 c1 cons1 ht
+      split at h
+      · cases h
+      · rename_i w2 cs2 cons2 hrest
+        simp only [Except.ok.injEq, Prod.mk.injEq] at h
+        obtain ⟨_, rfl, _⟩ := h
+        intro d hd hn hf hcs
+        rcases List.mem_cons.mp hd with rfl | hd
+        · obtain ⟨ci, hfc⟩ := hinv c (by simp)
+          by_cases hcc : c.completed = true
+          · unfold Ctr.tick at ht
+            simp only [hcc, ↓reduceIte, Except.ok.injEq, Prod.mk.injEq] at ht
+            rw [← ht.2.1, hcc] at hn; cases hn
+          · have hcn : c.completed = false := by simpa using hcc
+            exact tick_canSuspend cfg w c cons w1 d cons1 hcn (hfc hcn) ci.wf ht hf hcs
+        · exact ih w1 cons1 w2 cs2 cons2 hrest (fun x hx => hinv x (List.mem_cons_of_mem _ hx)) d hd hn hf hcs
+
+theorem killIndividual_survivors : ∀ (l : List Ctr) (w : Store) (cons : Int) (w' : Store) (l' : List Ctr) (cons' : Int),
+    killIndividual w l cons = .ok (w', l', cons') → ∀ c' ∈ l', c'.completed = false → c' ∈ l := by
+  intro l
+  induction l with
+  | nil =>
+    intro w cons w' l' cons' h c' hc'
+    simp only [killIndividual, Except.ok.injEq, Prod.mk.injEq] at h
+    obtain ⟨_, rfl, _⟩ := h
+    simp at hc'
+  | cons c cs ih =>
+    intro w cons w' l' cons' h c' hc' hn
+    unfold killIndividual at h
+    split at h
+    · split at h
+      · cases h
+      · rename_i w1 c1 cons1 hk
+        split at h
+        · cases h
+        · rename_i w2 cs2 cons2 hrest
+          simp only [Except.ok.injEq, Prod.mk.injEq] at h
+          obtain ⟨_, rfl, _⟩ := h
+          rcases List.mem_cons.mp hc' with rfl | hc'
+          · rw [(kill_live w c cons w1 c' cons1 hk).2.2.1] at hn; cases hn
+          · exact List.mem_cons_of_mem _ (ih w1 cons1 w2 cs2 cons2 hrest c' hc' hn)
+    · split at h
+      · cases h
+      · rename_i w2 cs2 cons2 hrest
+        simp only [Except.ok.injEq, Prod.mk.injEq] at h
+        obtain ⟨_, rfl, _⟩ := h
+        rcases List.mem_cons.mp hc' with rfl | hc'
+        · simp
+        · exact List.mem_cons_of_mem _ (ih w cons w2 cs2 cons2 hrest c' hc' hn)
+
+theorem killVictims_survivors (capR : Nat) : ∀ (vs : List Ctr) (w : Store) (act : List Ctr) (cons : Int) (w' : Store) (act' : List Ctr) (cons' : Int),
+    killVictims w capR act cons vs = .ok (w', act', cons') → ∀ c' ∈ act', c'.completed = false → c' ∈ act := by
+  intro vs
+  induction vs with
+  | nil =>
+    intro w act cons w' act' cons' h c' hc' _
+    simp only [killVictims, Except.ok.injEq, Prod.mk.injEq] at h
+    obtain ⟨_, rfl, _⟩ := h
+    exact hc'
+  | cons v vs ih =>
+    intro w act cons w' act' cons' h c' hc' hn
+    unfold killVictims at h
+    split at h
+    · simp only [Except.ok.injEq, Prod.mk.injEq] at h
+      obtain ⟨_, rfl, _⟩ := h
+      exact hc'
+    · split at h
+      · cases h
+      · rename_i w1 v1 cons1 hk
+        have hmem := ih w1 _ cons1 w' act' cons' h c' hc' hn
+        unfold replaceCtr at hmem
+        obtain ⟨x, hx, e⟩ := List.mem_map.mp hmem
+        split at e
+        · rw [← e, (kill_live w v cons w1 v1 cons1 hk).2.2.1] at hn; cases hn
+        · rw [← e]; exact hx
+
+theorem oomKiller_survivors {w w' : Store} {p p' : Pool} (h : oomKiller w p = .ok (w', p')) :
+    ∀ c' ∈ p'.active, c'.completed = false → c' ∈ p.active := by
+  unfold oomKiller at h
+  split at h
+  · cases h
+  · rename_i w1 act1 cons1 hk
+    split at h
+    · rw [← ok_snd2 h]
+      exact killIndividual_survivors _ _ _ _ _ _ hk
+    · split at h
+      · cases h
+      · rename_i w2 act2 cons2 hv
+        rw [← ok_snd2 h]
+        intro c' hc' hn
+        exact killIndividual_survivors _ _ _ _ _ _ hk c' (killVictims_survivors _ _ _ _ _ _ _ _ hv c' hc' hn) hn
+
+
+/-- phases 3–6 also keep the suspendable flag truthful -/
+theorem poolRun_flag {cfg : Cfg} {w w' : Store} {p p' : Pool} {n : Nat} {res : List Res} (m : MemOK p) (rd : PoolReady cfg w p)
+    (h : poolRun cfg w p = .ok (w', p', res)) : FlagOK p'.active := by
+  unfold poolRun at h
+  split at h
+  · cases h
+  · rename_i w3 p3 h3
+    have act3 : p3.active = p.active := by
+      unfold suspTickAll at h3
+      split at h3
+      · cases h3
+      · rw [← ok_snd2 h3]
+    split at h
+    · cases h
+    · rename_i w4 act4 cons4 h4
+      rw [act3] at h4
+      have hf4 := tickAll_flag cfg _ _ _ _ _ _ h4 (fun c hc => ⟨rd.live.inv c (List.mem_append_left _ hc), fun _ => (m.ok c hc).2.1⟩)
+      split at h
+      · cases h
+      · rename_i w5 p5 h5
+        simp only [Except.ok.injEq, Prod.mk.injEq] at h
+        obtain ⟨_, hp', _⟩ := h
+        obtain ⟨f1, _⟩ := collect_fields p5
+        intro c hc hn hfz hcs
+        rw [← hp', f1] at hc
+        have hc5 := (List.mem_filter.mp hc).1
+        have := oomKiller_survivors h5 c hc5 hn
+        exact hf4 c this hn hfz hcs
+
+/-- a pool at a tick boundary, as the executor needs it -/
+structure PoolReadyF (cfg : Cfg) (w : Store) (p : Pool) : Prop where
+  rd : PoolReady cfg w p
+  flag : FlagOK p.active
+
+/-- **phases 3–6 never raise and keep the pool ready for the next tick** -/
+theorem poolRun_succeedsF {cfg : Cfg} {w : Store} {p : Pool} {n : Nat} (pinv : PoolInv p n) (m : MemOK p) (rd : PoolReadyF cfg w p) :
+    ∃ w' p' res, poolRun cfg w p = .ok (w', p', res) ∧ PoolReadyF cfg w' p' := by
+  obtain ⟨w', p', res, h, r⟩ := poolRun_succeeds pinv m rd.rd
+  exact ⟨w', p', res, h, r, poolRun_flag (n := n) m rd.rd h⟩
+
+
+/-! ### phase 1: suspensions -/
+
+theorem transAll_sets_nodup (t : OpState) : ∀ (l : List Nat) (w w' : Store), w.transAll t l = .ok w' → l.Nodup → ∀ r ∈ l, w'.stOf r = t := by
+  intro l
+  induction l with
+  | nil => intro _ _ _ _ r hr; cases hr
+  | cons x xs ih =>
+    intro w w' h hnd r hr
+    simp only [List.nodup_cons] at hnd
+    unfold Store.transAll at h
+    split at h
+    · cases h
+    · rename_i w1 hw1
+      rcases List.mem_cons.mp hr with rfl | hr
+      · have hself : w1.stOf r = t := transition_self hw1 (transition_ok hw1).2.2.2
+        have hfr := (transAll_stepsP t xs w1 w' h).frame r (fun t' hx => hnd.1 hx.1)
+        rw [hfr, hself]
+      · exact ih w1 w' h hnd.2 r hr
+
+theorem findCtr_filter_ne (l : List Ctr) (a b : Nat) (h : a ≠ b) : findCtr (l.filter (·.cid != b)) a = findCtr l a := by
+  unfold findCtr
+  induction l with
+  | nil => rfl
+  | cons x xs ih =>
+    by_cases hx : x.cid = b
+    · have hxa : (x.cid == a) = false := by rw [hx]; simpa using fun e => h e.symm
+      rw [List.filter_cons, List.find?_cons, hxa]
+      simp [hx, ih]
+    · rw [List.filter_cons]
+      have : (x.cid != b) = true := by simpa using hx
+      rw [this]
+      simp only [↓reduceIte, List.find?_cons, ih]
+
+/-- **applying a verified list of suspensions never raises** on a ready pool (each request names a different running container that is flagged suspendable),
+and leaves the pool ready -/
+theorem doSuspends_succeeds (cfg : Cfg) (n : Nat) : ∀ (l : List Nat) (w : Store) (p : Pool), l.Nodup →
+    (∀ cid ∈ l, ∃ c, findCtr p.active cid = some c ∧ c.canSuspend = true) → PoolInv p n → PoolReadyF cfg w p → (∀ c ∈ p.active, c.frozen = false) →
+    ∃ w' p', doSuspends cfg w p l = .ok (w', p') ∧ PoolReadyF cfg w' p' ∧ PoolInv p' n ∧ (∀ c ∈ p'.active, c ∈ p.active) := by
+  intro l
+  induction l with
+  | nil => intro w p _ _ pinv rd _; exact ⟨w, p, rfl, rd, pinv, fun _ h => h⟩
+  | cons k ks ih =>
+    intro w p hnd hreq pinv rd hnf
+    simp only [List.nodup_cons] at hnd
+    obtain ⟨c, hfind, hcs⟩ := hreq k (by simp)
+    have hcmem : c ∈ p.active := List.mem_of_find?_eq_some hfind
+    have hcn : c.completed = false := rd.rd.live.nc c (List.mem_append_left _ hcmem)
+    have hhr : headRunning c = false := rd.flag c hcmem hcn (hnf c hcmem) hcs
+    obtain ⟨w1, c1, hsus⟩ := suspend_succeeds cfg w c (rd.rd.act c hcmem hcn) hhr
+    obtain ⟨e1, st⟩ := suspend_live cfg w c w1 c1 hsus
+    have hone : doSuspends cfg w p [k] = .ok (w1, { p with suspending := p.suspending ++ [c1], active := p.active.filter (·.cid != k) }) := by
+      simp only [doSuspends, hfind, hsus]
+    obtain ⟨l1, sh1, fr1⟩ := doSuspends_live cfg [k] w p n w1 _ hone pinv rd.rd.live
+    obtain ⟨pinv1, _⟩ := doSuspends_inv cfg [k] w p n w1 _ pinv hone
+    have hcnall : (cids p.active).Nodup := (List.nodup_append.mp pinv.nodup).1
+    obtain ⟨hck, _, _, _⟩ := find_remove p.active k c hfind hcnall
+    have hown_c : ∀ o ∈ c.unfinished, o ∈ ownP p := by
+      intro o ho
+      simp only [ownP, own_append, List.mem_append]
+      exact Or.inl (mem_own hcmem hcn ho)
+    have hndP := rd.rd.live.nd
+    have hcnAS : (cids (p.active ++ p.suspending)).Nodup := by rw [cids_append]; exact pinv.nodup
+    have hfoot : ∀ (x : Ctr), x ∈ p.active ++ p.suspending → x.cid ≠ c.cid → x.completed = false → ∀ o ∈ x.unfinished, w1.stOf o = w.stOf o := by
+      intro x hx hne hxn o ho
+      apply st.frame
+      intro t hxt
+      exact own_disjoint _ x c hndP hcnAS hx (List.mem_append_left _ hcmem) hne o (mem_ownOf_of hxn ho) (mem_ownOf_of hcn hxt.1)
+    have hrd1 : PoolReadyF cfg w1 { p with suspending := p.suspending ++ [c1], active := p.active.filter (·.cid != k) } := by
+      refine ⟨⟨l1, ?_, ?_⟩, ?_⟩
+      · intro d hd hdn
+        obtain ⟨hd1, hd2⟩ := List.mem_filter.mp hd
+        have hne : d.cid ≠ c.cid := by rw [hck]; simpa using hd2
+        exact ctrReady_frame (rd.rd.act d hd1 hdn) st.steps (hfoot d (List.mem_append_left _ hd1) hne hdn)
+      · intro d hd o ho
+        simp only [List.mem_append, List.mem_singleton] at hd
+        rcases hd with hd | rfl
+        · have hdn := rd.rd.live.nc d (List.mem_append_right _ hd)
+          have hne : d.cid ≠ c.cid := by
+            intro e
+            exact (List.nodup_append.mp pinv.nodup).2.2 c.cid (List.mem_map_of_mem hcmem) d.cid (List.mem_map_of_mem hd) e.symm
+          obtain ⟨b1, b2⟩ := rd.rd.sus d hd o ho
+          exact ⟨by rw [st.steps.size]; exact b1, by rw [hfoot d (List.mem_append_right _ hd) hne hdn o ho]; exact b2⟩
+        · have hoc : o ∈ c.unfinished := by rw [e1] at ho; exact ho
+          unfold Ctr.suspend at hsus
+          split at hsus
+          · cases hsus
+          · rename_i w1' hw1
+            simp only [Except.ok.injEq, Prod.mk.injEq] at hsus
+            obtain ⟨rfl, _⟩ := hsus
+            exact ⟨by rw [(transAll_steps _ _ _ _ hw1).size]; exact (rd.rd.act c hcmem hcn).inb o hoc,
+              transAll_sets_nodup suspending _ _ _ hw1 (unfinished_nodup (rd.rd.act c hcmem hcn).inv.nd) o hoc⟩
+      · intro d hd
+        exact rd.flag d (List.mem_filter.mp hd).1
+    have hreq1 : ∀ cid ∈ ks, ∃ c', findCtr (p.active.filter (·.cid != k)) cid = some c' ∧ c'.canSuspend = true := by
+      intro cid hcid
+      obtain ⟨c', h1, h2⟩ := hreq cid (List.mem_cons_of_mem _ hcid)
+      have hne : cid ≠ k := fun e => hnd.1 (e ▸ hcid)
+      exact ⟨c', by rw [findCtr_filter_ne _ _ _ hne]; exact h1, h2⟩
+    obtain ⟨w2, p2, h2, r2, pinv2, hsub2⟩ := ih w1 _ hnd.2 hreq1 pinv1 hrd1 (fun d hd => hnf d (List.mem_filter.mp hd).1)
+    refine ⟨w2, p2, ?_, r2, pinv2, fun d hd => (List.mem_filter.mp (hsub2 d hd)).1⟩
+    unfold doSuspends
+    simp only [hfind, hsus]
+    exact h2
+
+
+/-! ### phase 2: new containers, and the whole pool tick -/
+
+/-- assignments as the executor needs them: built by the checked constructor (operators ASSIGNED, distinct, existing, with segments) and in
+dependency order (every parent COMPLETED or earlier in the same assignment) -/
+def AsgsReady (w : Store) (as : List Asg) : Prop :=
+  ∀ a ∈ as, a.ops ≠ [] ∧ a.ops.Nodup ∧ (∀ r ∈ a.ops, w.segsOf r ≠ [] ∧ w.stOf r = assigned ∧ r < w.st.size) ∧ ParentsOK w a.ops
+
+theorem remOps_ne_nil (cfg : Cfg) (cpu : Nat) (ops : List (Nat × List Seg)) (hne : ops ≠ []) (hseg : ∀ o ∈ ops, o.2 ≠ []) : remOps cfg cpu ops ≠ [] := by
+  cases ops with
+  | nil => exact absurd rfl hne
+  | cons o os =>
+    intro e
+    have hlen := congrArg List.length e
+    simp only [remOps, List.flatMap_cons, List.length_append, opRem_length, List.length_nil] at hlen
+    have := opTickTable_pos cfg cpu o.2 (hseg o (by simp))
+    omega
+
+theorem mkCtr_ready (cfg : Cfg) (w : Store) (cid : Nat) (a : Asg) (h1 : a.ops ≠ []) (hnd : a.ops.Nodup)
+    (hst : ∀ r ∈ a.ops, w.segsOf r ≠ [] ∧ w.stOf r = assigned ∧ r < w.st.size) (hpar : ParentsOK w a.ops) :
+    CtrReady cfg w (mkCtr w cid a) ∧ (mkCtr w cid a).frozen = false ∧ (mkCtr w cid a).canSuspend = false := by
+  obtain ⟨m1, _, _⟩ := mkCtr_inv cfg w cid a hnd (fun r hr => (hst r hr).1)
+  refine ⟨⟨m1, ?_, hpar, fun o ho => (hst o ho).2.2, fun _ => ?_⟩, rfl, rfl⟩
+  · unfold ExactSt
+    show match a.ops.drop 0 with | [] => True | r :: rest => _
+    simp only [List.drop_zero]
+    cases ha : a.ops with
+    | nil => trivial
+    | cons r rest =>
+      simp only
+      have hh : headRunning (mkCtr w cid { a with ops := r :: rest }) = false := by simp [headRunning, mkCtr, mkPos]
+      refine ⟨?_, fun o ho => (hst o (by rw [ha]; exact List.mem_cons_of_mem _ ho)).2.1⟩
+      have : headRunning (mkCtr w cid a) = false := by simp [headRunning, mkCtr, mkPos]
+      rw [this]
+      exact (hst r (by rw [ha]; simp)).2.1
+  · have : rem cfg (mkCtr w cid a) = remOps cfg a.cpu (a.ops.map (fun r => (r, w.segsOf r))) := by
+      simp only [rem, remHead, mkCtr, mkPos]
+      cases a.ops with
+      | nil => simp [remOps]
+      | cons r rs => simp [remOps]
+    rw [this]
+    apply remOps_ne_nil
+    · intro e; exact h1 (by simpa using e)
+    · intro o ho
+      simp only [List.mem_map] at ho
+      obtain ⟨r, hr, rfl⟩ := ho
+      exact (hst r hr).1
+
+theorem startAll_ready (cfg : Cfg) (w : Store) : ∀ (as : List Asg) (p : Pool) (n : Nat) (p' : Pool) (n' : Nat),
+    startAll cfg w p n as = .ok (p', n') → PoolReadyF cfg w p → AsgsReady w as → (ownP p ++ as.flatMap (·.ops)).Nodup →
+    PoolReadyF cfg w p' := by
+  intro as p n p' n' h rd ha hnd
+  obtain ⟨l', _⟩ := startAll_live cfg w as p n p' n' h rd.rd.live
+    (fun a haa => ⟨(ha a haa).2.1, fun r hr => ⟨((ha a haa).2.2.1 r hr).1, by rw [((ha a haa).2.2.1 r hr).2.1]; exact Or.inl rfl⟩⟩) hnd
+  -- what startAll adds to the active list
+  have key : ∀ (as : List Asg) (p : Pool) (n : Nat) (p' : Pool) (n' : Nat), startAll cfg w p n as = .ok (p', n') → AsgsReady w as →
+      p'.suspending = p.suspending ∧ ∀ c ∈ p'.active, c ∈ p.active ∨ (CtrReady cfg w c ∧ c.frozen = false ∧ c.canSuspend = false) := by
+    intro as
+    induction as with
+    | nil =>
+      intro p n p' n' h _
+      simp only [startAll, Except.ok.injEq, Prod.mk.injEq] at h
+      obtain ⟨rfl, _⟩ := h
+      exact ⟨rfl, fun c hc => Or.inl hc⟩
+    | cons a as ih =>
+      intro p n p' n' h ha
+      unfold startAll at h
+      split at h
+      · cases h
+      · obtain ⟨a1, a2, a3, a4⟩ := ha a (by simp)
+        obtain ⟨i1, i2⟩ := ih _ _ _ _ h (fun b hb => ha b (List.mem_cons_of_mem _ hb))
+        refine ⟨i1, fun c hc => ?_⟩
+        rcases i2 c hc with hc' | hc'
+        · simp only [List.mem_append, List.mem_singleton] at hc'
+          rcases hc' with hc' | rfl
+          · exact Or.inl hc'
+          · exact Or.inr (mkCtr_ready cfg w n a a1 a2 a3 a4)
+        · exact Or.inr hc'
+  obtain ⟨ks, ka⟩ := key as p n p' n' h ha
+  refine ⟨⟨l', ?_, by rw [ks]; exact rd.rd.sus⟩, ?_⟩
+  · intro c hc hn
+    rcases ka c hc with h1 | h1
+    · exact rd.rd.act c h1 hn
+    · exact h1.1
+  · intro c hc hn hf hcs
+    rcases ka c hc with h1 | h1
+    · exact rd.flag c h1 hn hf hcs
+    · rw [h1.2.2] at hcs; cases hcs
+
+theorem verifySuspends_ok_iff (p : Pool) : ∀ (l : List Nat), verifySuspends p l = .ok () →
+    ∀ cid ∈ l, ∃ c, findCtr p.active cid = some c ∧ c.canSuspend = true := by
+  intro l
+  induction l with
+  | nil => intro _ cid h; simp at h
+  | cons k ks ih =>
+    intro h cid hcid
+    unfold verifySuspends at h
+    split at h
+    · cases h
+    · rename_i c hf
+      split at h
+      · rename_i hcs
+        rcases List.mem_cons.mp hcid with rfl | hcid
+        · exact ⟨c, hf, hcs⟩
+        · exact ih h cid hcid
+      · cases h
+
+/-- the errors with which a pool tick refuses its commands before doing anything irreversible -/
+def Err.isGate (e : Err) : Bool := e == .noContainer || e == .cannotSuspend || e == .overCpu || e == .overRam || e == .opCount
+
+/-- **a pool tick raises only at its gates.**  On a ready pool, with assignments built by the checked constructor in dependency order and with
+distinct suspension requests, `ResourcePool.run_one_tick` either succeeds and leaves the pool ready for the next tick, or refuses the commands with
+one of the gate errors (unknown or unsuspendable container, oversold CPU or RAM, wrong operator count) in a well-defined state.  It never fails
+in the middle of the tick. -/
+theorem poolTick_raises_only_at_the_gates {cfg : Cfg} {w : Store} {p : Pool} {n : Nat} {cm : Cmds}
+    (g : PoolGoodMem cfg p n) (rd : PoolReadyF cfg w p) (ha : AsgsReady w cm.asgs) (hs : cm.susp.Nodup)
+    (hnd : (ownP p ++ cm.asgs.flatMap (·.ops)).Nodup) :
+    (∃ w' p' n' res, poolTick cfg w p n cm = .ok (w', p', n', res) ∧ PoolReadyF cfg w' p') ∨
+    (∃ e st, poolTick cfg w p n cm = .error (e, some st) ∧ e.isGate = true) := by
+  unfold poolTick
+  -- gate 1
+  cases hv : (if cm.susp.isEmpty then (Except.ok () : Except Err Unit) else verifySuspends p cm.susp) with
+  | error e =>
+    right
+    refine ⟨e, (w, p, n), rfl, ?_⟩
+    split at hv
+    · cases hv
+    · -- the only errors of verify_valid_suspend
+      have : ∀ (l : List Nat), verifySuspends p l = .error e → e.isGate = true := by
+        intro l
+        induction l with
+        | nil => intro h; simp [verifySuspends] at h
+        | cons k ks ih =>
+          intro h
+          unfold verifySuspends at h
+          split at h
+          · cases h; rfl
+          · split at h
+            · exact ih h
+            · cases h; rfl
+      exact this _ hv
+  | ok u =>
+    simp only
+    have hreq : ∀ cid ∈ cm.susp, ∃ c, findCtr p.active cid = some c ∧ c.canSuspend = true := by
+      split at hv
+      · rename_i he
+        intro cid hc
+        have : cm.susp = [] := by simpa using he
+        rw [this] at hc; simp at hc
+      · exact verifySuspends_ok_iff p cm.susp hv
+    obtain ⟨w1, p1, hd, r1, pinv1, hsub1⟩ := doSuspends_succeeds cfg n cm.susp w p hs hreq g.1.1 rd (fun c hc => (g.2.ok c hc).2.1)
+    -- phase 1 as the tick performs it (nothing at all for an empty list, else apply and re-sum the usage)
+    have hph1 : ∃ p1', (if cm.susp.isEmpty then (Except.ok (w, p) : Except Err (Store × Pool)) else (doSuspends cfg w p cm.susp).map (fun (w1, p1) => (w1, p1.reconcile))) = .ok (w1, p1') ∧
+        PoolReadyF cfg w1 p1' ∧ ownP p1' = ownP p1 := by
+      split
+      · rename_i he
+        have : cm.susp = [] := by simpa using he
+        rw [this] at hd
+        simp only [doSuspends, Except.ok.injEq, Prod.mk.injEq] at hd
+        obtain ⟨rfl, rfl⟩ := hd
+        exact ⟨p, rfl, rd, rfl⟩
+      · rw [hd]
+        refine ⟨p1.reconcile, rfl, ?_, rfl⟩
+        exact ⟨⟨⟨r1.rd.live.inv, r1.rd.live.nc, r1.rd.live.nd, r1.rd.live.busy⟩, r1.rd.act, r1.rd.sus⟩, r1.flag⟩
+    obtain ⟨p1', hs1, r1', hown1⟩ := hph1
+    rw [hs1]
+    simp only
+    have m1 := susPhase_mem g.2 hs1
+    obtain ⟨g1, _, _⟩ := susPhase_inv g.1 hs1
+    obtain ⟨_, sh1, fr1⟩ := doSuspends_live cfg cm.susp w p n w1 p1 hd g.1.1 rd.rd.live
+    -- gate 2
+    cases hva : (if cm.asgs.isEmpty then (Except.ok () : Except Err Unit) else verifyAssignments cfg p1' cm.asgs) with
+    | error e =>
+      right
+      refine ⟨e, (w1, p1', n), rfl, ?_⟩
+      split at hva
+      · cases hva
+      · unfold verifyAssignments at hva
+        split at hva
+        · cases hva; rfl
+        · split at hva
+          · cases hva; rfl
+          · cases hva
+    | ok u2 =>
+      simp only
+      cases hst : startAll cfg w1 p1' n cm.asgs with
+      | error e3 =>
+        right
+        obtain ⟨e, p2, n2⟩ := e3
+        refine ⟨e, (w1, p2, n2), rfl, ?_⟩
+        -- startAll refuses only for the operator count
+        have : ∀ (as : List Asg) (p0 : Pool) (n0 : Nat), startAll cfg w1 p0 n0 as = .error (e, p2, n2) → e.isGate = true := by
+          intro as
+          induction as with
+          | nil => intro p0 n0 h; simp [startAll] at h
+          | cons a as ih =>
+            intro p0 n0 h
+            unfold startAll at h
+            split at h
+            · cases h; rfl
+            · exact ih _ _ h
+        exact this _ _ _ hst
+      | ok v =>
+        obtain ⟨p2, n2⟩ := v
+        simp only
+        left
+        have m2 := (startAll_mem cfg w1 cm.asgs p1' n m1).1 _ _ hst
+        obtain ⟨i2, _⟩ := (startAll_inv cfg w1 cm.asgs p1' n g1.1).1 _ _ hst
+        -- the assignments are still what they were, seen from the store after phase 1
+        have hdisjA : ∀ o ∈ cm.asgs.flatMap (·.ops), o ∉ ownP p := fun o ho hx => (List.nodup_append.mp hnd).2.2 o hx o ho rfl
+        have hst1 : Steps w w1 := doSuspends_steps cfg _ _ _ _ _ hd
+        have ha1 : AsgsReady w1 cm.asgs := by
+          intro a haa
+          obtain ⟨x1, x2, x3, x4⟩ := ha a haa
+          refine ⟨x1, x2, fun r hr => ?_, parentsOK_frame x4 hst1.ops (fun q hq => completed_final hst1 q hq)⟩
+          obtain ⟨y1, y2, y3⟩ := x3 r hr
+          refine ⟨by unfold Store.segsOf at y1 ⊢; rw [hst1.ops]; exact y1, ?_, by rw [hst1.size]; exact y3⟩
+          rw [fr1 r (hdisjA r (List.mem_flatMap.mpr ⟨a, haa, hr⟩))]; exact y2
+        have hnd1 : (ownP p1' ++ cm.asgs.flatMap (·.ops)).Nodup := by
+          rw [hown1]
+          exact (Shrinks.append sh1 (Shrinks.refl _)).nodup hnd
+        have r2 := startAll_ready cfg w1 cm.asgs p1' n p2 n2 hst r1' ha1 hnd1
+        obtain ⟨w6, p6, res, hr, r6⟩ := poolRun_succeedsF i2 m2 r2
+        rw [hr]
+        exact ⟨w6, p6, n2, res, rfl, r6⟩
+
 end Eudoxia
